@@ -7,14 +7,29 @@
   (`C20_window_defined`).  Proved here about the interpreter: the bracket
   matcher's former `unreachable!()` arm is an ordinary continuation in the model
   (closing an inner pair under an enclosing bracket of another kind).
-  In progress: `run … ≠ panic` for all grammars within preconditions, and the
-  renderer.  Carried meanwhile by the `nopanic` family and by the panic checks
+  `C01_run_no_panic_partial`: the interpreter never reaches a panic site on grammars
+  within the documented preconditions (`any`/`any_index` lists non-empty, `lo ≤ hi`),
+  for the fragment of `G` without `text`, `bracket`, `list` — for an arbitrary scanner
+  (no scanner contract is needed on this fragment).
+  `C01_run_no_panic_bracket_partial`: the same with `bracket*` added (precondition:
+  non-empty, equal-length, disjoint slices), under the scanner contract `ScanOK` and from a
+  well-formed lexer: the four `unwrap`s of `match_nested_brackets` are never reached.
+  Missing for the full statement (`C01_run_statement`): the panic site of `text`
+  (`Source.sliceBytes`: needs the lexer positions to be character boundaries of the text,
+  i.e. a position invariant carried through `run`) and of `list` (the `debug_assert` on the
+  recover state in `finish`: needs the fact that after a value the next token is a separator
+  or an abort token, so that the separator step never recovers).
+  In progress: those two, and the renderer.  Carried meanwhile by the `nopanic` family and by the panic checks
   run on every grammar-level case (parse, report rendering, lexer Display).
 -/
 import TephraProps.C18
 import TephraProps.C19
 import TephraProps.C20
 import TephraModel.Run
+import TephraProofs.NoPanic
+import TephraProofs.NoPanicBr
+import TephraProofs.LexInv
+import TephraProofs.Termination
 
 namespace Tephra.Props
 open Tephra
@@ -23,5 +38,45 @@ open Tephra
 theorem C01_context_total (c : Ctx) (e : PErr) (W : World) :
     (sendError c e W).1 = none ∨ (sendError c e W).1 = some e := by
   unfold sendError; split <;> simp
+
+/-- Constructors covered by `C01_run_no_panic_partial` (all of `G` except `text`, `bracket`,
+`list`), with the documented preconditions: `empty one any anyIndex seq seqCount pred endOfText
+left right both center map discard either maybe requireIf cond implies antecedent consequent
+condImplies filterWith unfiltered sub spanned repeat_ repeatUntil intersperse intersperseUntil
+intersperseDefault raw unrecoverable recover stabilize upTo probe ctxPushed ctxPush ctxLocked
+someOf`.  `NoPanic.Frag g`: every `any`/`anyIndex` list in `g` is non-empty, every repetition has
+`lo ≤ hi` (`hiBelow hi lo = false`), and `g` contains no `text`, `bracket`, `list`. -/
+theorem C01_run_no_panic_partial (R : RunEnv) (n : Nat) (g : G) (lx : Lx) (ctx : Ctx) (W : World)
+    (hf : NoPanic.Frag g) : (run R n g lx ctx W).1 ≠ .panic :=
+  NoPanic.run_no_panic R n g lx ctx W hf
+
+/-- The same with `bracket` (all of `G` except `text`, `list`), under the scanner contract and
+from a well-formed lexer (`Term.WF`, e.g. `Lexer.new`): `NoPanic.Frag2 g` adds to `Frag` the
+bracket precondition `BrPre opens closes` (both slices non-empty, of equal length, disjoint). -/
+theorem C01_run_no_panic_bracket_partial {R : RunEnv} {m : Metrics} {len : Nat} (ok : ScanOK R.E m len)
+    (n : Nat) (g : G) (lx : Lx) (ctx : Ctx) (W : World) (wf : Term.WF m len lx) (hf : NoPanic.Frag2 g) :
+    (run R n g lx ctx W).1 ≠ .panic :=
+  NoPanic.run_no_panic_br ok n g lx ctx W wf hf
+
+/-- The full statement of the interpreter part of C01 (NOT proved; `text` and `list` are
+missing): on any grammar within the documented preconditions (`NoPanic.Pre`), for a scanner
+satisfying the scanner contract and returning character boundaries of the text, from the
+initial state, `run` never reaches a panic site. -/
+def C01_run_statement : Prop :=
+  ∀ (R : RunEnv) (m : Metrics) (len : Nat), ScanOK R.E m len → bytes R.text = len →
+  Closed R.E (fun p => (splitAtByte R.text p.byte).isSome = true) m →
+  ∀ (g : G), NoPanic.Pre g → Term.IdsFunctional (Term.recIds g) →
+  ∀ (n s0 : Nat) (ctx : Ctx), (run R n g (Lexer.new s0 m len) ctx World.init).1 ≠ .panic
+
+/-- the preconditions are necessary: the empty token list panics. -/
+example (R : RunEnv) (lx : Lx) (ctx : Ctx) (W : World) : (run R 1 (.any []) lx ctx W).1 = .panic := by
+  simp [run]
+
+/-- non-vacuity: a grammar of the fragment. -/
+example : NoPanic.Frag2 (.bracket 3 [6] (.any [0]) [7] [5]) := by
+  simp [NoPanic.Frag2, NoPanic.BrPre]
+
+example : NoPanic.Frag (.stabilize (.recover 1 0 (.repeat_ 0 1 (some 3) (.either (.any [0, 1]) (.one 2))) (.before 4))) := by
+  simp [NoPanic.Frag, hiBelow]
 
 end Tephra.Props
